@@ -51,6 +51,10 @@ def _strip_turbofish(s):
                     if depth == 0:
                         break
                 j += 1
+            grp = s[i:j + 1]
+            if grp.startswith("::<impl ") and " for " in grp:
+                # trait impl segment (`mod::<impl Trait for X>::m`): part of the identity
+                out.append(grp)
             i = j + 1
             continue
         out.append(s[i])
@@ -413,6 +417,8 @@ class Program:
                 body = Body(b, crate, ff)
                 if body.key in self.bodies and ff == "okane-executable.json":
                     continue
+                if body.key in self.bodies:
+                    raise AnchorMissing("duplicate body key after normalisation: " + body.key)
                 self.bodies[body.key] = body
                 self.by_file[body.file].append(body)
             for a in data["adts"]:
